@@ -298,4 +298,34 @@ theorem mem_seqRun (first x : UInt16) (n : Nat) : x ∈ seqRun first n ↔ ∃ i
         apply UInt16.toNat_inj.mp
         simp [UInt16.toNat_add]; omega
 
+/-- **nack_response_rtx**: answering a NACK with RTX enabled wraps the selected stored packets, in order, with
+CONSECUTIVE RTX sequence numbers starting at the handler's counter (wrapping at 2^16), advances the counter by
+the number of packets sent, and resends nothing else; without RTX the packets are resent unchanged and the
+counter does not move. -/
+theorem nack_response_rtx (ctr : UInt16) (xs : List (UInt16 × Nat)) :
+    (respondRtx true ctr xs).1.map (fun e => (e.1, e.2.1)) = xs ∧
+    (∀ (i : Nat) (hi : i < (respondRtx true ctr xs).1.length), ((respondRtx true ctr xs).1[i]).2.2 = some (ctr + UInt16.ofNat i)) ∧
+    (respondRtx true ctr xs).2 = ctr + UInt16.ofNat xs.length ∧
+    (respondRtx false ctr xs).1 = xs.map (fun e => (e.1, e.2, none)) ∧ (respondRtx false ctr xs).2 = ctr := by
+  induction xs generalizing ctr with
+  | nil => simp [respondRtx]
+  | cons x xs ih =>
+    obtain ⟨s, t⟩ := x
+    obtain ⟨h1, h2, h3, h4, h5⟩ := ih (ctr + 1)
+    obtain ⟨_, _, _, g4, g5⟩ := ih ctr
+    simp only [respondRtx, if_true, Bool.false_eq_true, if_false, List.map_cons, List.length_cons]
+    refine ⟨by rw [h1], ?_, ?_, by rw [g4], g5⟩
+    · intro i hi
+      cases i with
+      | zero => simp
+      | succ j =>
+        have := h2 j (by simpa using hi)
+        simp only [List.getElem_cons_succ, this]
+        congr 1
+        apply UInt16.toNat_inj.mp
+        simp [UInt16.toNat_add]; omega
+    · rw [h3]
+      apply UInt16.toNat_inj.mp
+      simp [UInt16.toNat_add]; omega
+
 end RtcModel.C15
